@@ -175,6 +175,9 @@ package xmlenc
 //@ import sha1 "crypto/sha1"
 //@ import sha256 "crypto/sha256"
 //@ import sha512 "crypto/sha512"
+//@ -- a digest method holds a constructor: every use gets a hash state of its own (a shared hash.Hash would be written
+//@ -- to by concurrent and interleaved uses)
+//@ xmlshape[C10,C11] digestMethod
 //@ import ripemd160 "golang.org/x/crypto/ripemd160"
 //@ go func sameFunc(a, b func() hash.Hash) bool
 //@ ensures[C10] digest_table:
